@@ -255,6 +255,8 @@ EXPLANATION = ("Per-function contracts on the four functions that number, buffer
 def replay(obligation, witness):
     import contracts.c27_native as n
     r = n.outage_and_catch_up()
+    if not r["violated"] and "_post_async" in obligation:
+        r = n.two_sends_in_flight_when_the_connection_closes()
     return {"confirmed": bool(r["violated"]), **r}
 
 
@@ -267,5 +269,11 @@ def _nat():
     return {"ok": not r["violated"], "observation": r}
 
 
-NATIVE = [("native:one-outage-with-a-failing-resend", _nat)]
-BOUNDED = ["one native outage scenario on the real EngineRunner/EngineDispatcher methods (two messages, one failing resend): bounded, not counted"]
+def _nat2():
+    import contracts.c27_native as n
+    r = n.two_sends_in_flight_when_the_connection_closes()
+    return {"ok": not r["violated"], "observation": r}
+
+
+NATIVE = [("native:one-outage-with-a-failing-resend", _nat), ("native:two-sends-in-flight-when-the-connection-closes", _nat2)]
+BOUNDED = ["two native scenarios (two posts in flight when the connection closes; one outage on the real EngineRunner/EngineDispatcher methods (two messages, one failing resend): bounded, not counted"]
